@@ -133,3 +133,37 @@ impl RecvHandle for Receiver {
         }
     }
 }
+
+#[cfg(bgpfu_verif)]
+impl JunosLocal {
+    /// Verification hook: spawn `path` instead of the Junos `cli` binary.
+    ///
+    /// Only compiled with `--cfg bgpfu_verif`.
+    #[allow(clippy::missing_errors_doc)]
+    pub async fn verif_connect<P: AsRef<std::ffi::OsStr> + Send>(
+        path: P,
+        args: &[String],
+    ) -> Result<Self, Error> {
+        let mut child = Command::new(path)
+            .stdin(Stdio::piped())
+            .stdout(Stdio::piped())
+            .stderr(Stdio::piped())
+            .args(args)
+            .kill_on_drop(true)
+            .spawn()?;
+        let stdout = child
+            .stdout
+            .take()
+            .ok_or_else(|| io::Error::other("failed to handle for child stdin"))?;
+        let stdin = child
+            .stdin
+            .take()
+            .ok_or_else(|| io::Error::other("failed to handle for child stdin"))?;
+        let handle = Arc::new(child);
+        Ok(Self {
+            handle,
+            stdin,
+            stdout,
+        })
+    }
+}
